@@ -244,7 +244,7 @@ def run(ctx):
             validated = nn
     if res["stage"] != "translate":
         triples = [("tmpl_preprocess", o["PreData"], o["PreText"]) for o in outs if o.get("PreData") and o.get("PreText")]
-        ng, mg = S.stageG(ctx, triples)
+        ng, mg = S.stageG(ctx, triples, shard=1)
         ctx.log("stage G: %d .inkfempre texts rendered by the Coq model of text/template from the translated template, %s" % (
             ng, "identical to what Go wrote" if mg == [] else ("BROKEN" if mg is None else "%d differ" % len(mg))))
         if mg is None:
